@@ -186,12 +186,24 @@ namespace Pistache::Tcp
         timerfd_settime(fd, 0, &expireNow, nullptr);
     }
 
-    void Transport::handleIncoming(const std::shared_ptr<Peer>& peer)
+    void Transport::handleIncoming(const std::shared_ptr<Peer>& connectedPeer)
     {
         char buffer[Const::MaxBuffer] = { 0 };
 
+        // The handler can release this peer while it is being given input (a
+        // streamed response that flushes the write queue completes a queued 408,
+        // whose continuation disconnects the peer). Keep the object alive - the
+        // argument refers to the entry of the peer table - and stop reading once
+        // the descriptor is no longer this peer's.
+        const std::shared_ptr<Peer> peer = connectedPeer;
+
         ssize_t totalBytes = 0;
         int fd             = peer->fd();
+
+        auto released = [&]() {
+            auto it = peers.find(fd);
+            return it == std::end(peers) || it->second != peer;
+        };
 
         for (;;)
         {
@@ -236,6 +248,8 @@ namespace Pistache::Tcp
             else
             {
                 handler_->onInput(buffer, bytes, peer);
+                if (released())
+                    break;
             }
         }
     }
